@@ -20,13 +20,22 @@
    that the printed result stays small: (1) = all identical, (0 w k i line) = in
    view k (of v if w = 0, of [v, {"k": v}] if w = 1) the first differing line
    index and the first 160 characters of the model's line there (() if the model
-   has none). *)
+   has none).
+   PPC = the same with the configuration of the call spelled out (C11/Palette.v: how
+   palette= / no_color= / colors_conf= were given and whether the global colours
+   configuration is a no_color one).  The model decides from the configuration whether
+   the palette is plain: if so every view must again be gen_lines m v -- the lines do
+   not depend on HOW the no-colour output was asked for; (2) = the model allows
+   colours for this configuration (nothing demanded; the generator never produces
+   such a case, so (2) is a disagreement between generator and model), (3) = the
+   model rejects the call (ready palette object + colors_conf).  PP = PPC cfg_default. *)
 From Coq Require Import ZArith List Bool.
-From AK Require Export Common.Sx Common.Err C11.Model.
+From AK Require Export Common.Sx Common.Err C11.Model C11.Palette.
 Import ListNotations.
 
 Inductive case :=
-| PP (m : mode) (v : value) (views : list (list (list Z))) (wviews : list (list (list Z))).
+| PP (m : mode) (v : value) (views : list (list (list Z))) (wviews : list (list (list Z)))
+| PPC (m : mode) (v : value) (c : cfg) (views : list (list (list Z))) (wviews : list (list (list Z))).
 
 Fixpoint str_eqb (a b : list Z) : bool :=
   match a, b with
@@ -63,9 +72,7 @@ Definition report (w : Z) (r : Z * Z * option (list Z)) : sx :=
   | (k, i, l) => SL [SZ 0; SZ w; SZ k; SZ i; sx_option sx_str (option_map (firstn 160) l)]
   end.
 
-Definition run (c : case) : sx :=
-  match c with
-  | PP m v views wviews =>
+Definition compare (m : mode) (v : value) (views wviews : list (list (list Z))) : sx :=
       match first_bad (gen_lines m v) views 0%Z with
       | Some r => report 0%Z r
       | None =>
@@ -77,5 +84,15 @@ Definition run (c : case) : sx :=
               | None => SL [SZ 1]
               end
           end
+      end.
+
+Definition run (c : case) : sx :=
+  match c with
+  | PP m v views wviews => compare m v views wviews
+  | PPC m v c views wviews =>
+      match mk_palette_plain c with
+      | Some true => compare m v views wviews
+      | Some false => SL [SZ 2]
+      | None => SL [SZ 3]
       end
   end.
